@@ -134,6 +134,15 @@ pub fn gen(seed: u64, thorough: bool) {
             out.line(&format!("c08 f64 {:016x}", bits));
         }
     }
+    // doubles of extreme magnitude (biased exponent 0..89 and 1980..2046): their shortest texts are the ones that leave the
+    // fast paths of the reader (Clinger, the 64-bit multiply) and go through the 128-bit product of the Eisel-Lemire step and the
+    // subnormal branch — a rounding slip there shows on about one in ten thousand of them
+    let nx = if thorough { 600000 } else { 60000 };
+    for k in 0..nx {
+        let e = if k % 2 == 0 { r.below(90) as u64 } else { 1980 + r.below(67) as u64 };
+        let bits = (e << 52) | (r.next() & ((1 << 52) - 1)) | if k % 4 < 2 { 0 } else { 1 << 63 };
+        out.line(&format!("c08 f64 {:016x}", bits));
+    }
     // f32 samples (all 2^32 values are walked by `vh c08 allf32` in the thorough tier)
     let n32 = if thorough { 300000 } else { 8000 };
     for _ in 0..n32 {
